@@ -1,0 +1,25 @@
+// +build verif
+
+package raft
+
+// Hooks for the verification harness (/verif). Compiled only with -tags verif.
+
+import (
+	pb "github.com/marekgalovic/anndb/protobuf"
+
+	etcdRaft "github.com/coreos/etcd/raft"
+	uuid "github.com/satori/go.uuid"
+)
+
+// VerifSetClient injects an in-memory transport client for a peer (no network).
+func (this *RaftTransport) VerifSetClient(nodeId uint64, c pb.RaftTransportClient) {
+	this.nodeClientsMu.Lock()
+	defer this.nodeClientsMu.Unlock()
+	this.nodeClients[nodeId] = c
+}
+
+// VerifCampaign makes this replica start an election now (instead of waiting for ticks).
+func (this *RaftGroup) VerifCampaign() error { return this.raft.Campaign(this.ctx) }
+
+func (this *RaftGroup) VerifStatus() etcdRaft.Status { return this.raft.Status() }
+func (this *RaftGroup) VerifId() uuid.UUID            { return this.id }
